@@ -381,7 +381,7 @@ func join(hdr string, elems []string) string { return hdr + strings.Join(elems, 
 // MutOps names the mutation operators (index = operator id).
 var MutOps = []string{"byte-delete", "byte-insert", "byte-replace", "byte-swapcase", "elem-dup", "elem-drop", "elem-swap", "elem-move", "abv-other-version",
 	"abv-casevariant", "abv-truncate", "value-other", "value-lower", "value-empty", "value-doubled", "append-slash", "prepend-slash", "empty-elem", "truncate",
-	"header-variant", "nocolon", "double-colon", "append-garbage", "elem-foreign", "whitespace", "dup-far", "lookalike"}
+	"header-variant", "nocolon", "double-colon", "append-garbage", "elem-foreign", "whitespace", "dup-far", "lookalike", "lenwrap"}
 
 func swapCase(c byte) byte {
 	switch {
@@ -607,6 +607,32 @@ func MutateOp(r *Rand, v *spec.Version, s string, op int) string {
 		out := append([]string{}, el[:i]...)
 		out = append(out, m.Abv+":"+r.Pick(m.Values))
 		return join(hdr, append(out, el[i:]...))
+	case "lenwrap":
+		// an element, the header or the whole string grows by 256, 512 or 65,536 bytes: a length kept in a
+		// uint8 / uint16 sees the original length
+		i := pickEl()
+		k, val, _ := splitKV(el[i])
+		out := append([]string{}, el...)
+		n := []int{256, 512, 65536}[r.Intn(3)]
+		pad := strings.Repeat(string("A\x00 "[r.Intn(3)]), n)
+		switch r.Intn(5) {
+		case 0:
+			out[i] = k + ":" + val + pad
+		case 1:
+			out[i] = k + pad + ":" + val
+		case 2:
+			return join(hdr, out) + pad
+		case 3:
+			if len(hdr) > 1 {
+				return hdr[:len(hdr)-1] + pad + "/" + strings.Join(out, "/")
+			}
+			return pad + join(hdr, out)
+		default:
+			// the value repeated up to the wrapped length
+			rep := strings.Repeat(val+"/", n/(len(val)+1)+2)
+			out[i] = k + ":" + rep[:len(val)+n]
+		}
+		return join(hdr, out)
 	case "lookalike":
 		// same length, same first/last byte, one inner (or any) byte changed -- in the value or the abbreviation
 		i := pickEl()
